@@ -27,7 +27,7 @@ from mc.core import Acc, rotate
 ID = "C15"
 LEVEL = "model_checking"
 ASSUMPTIONS = [
-    "targets: contracts with 1-3 functions out of {inc, dec (guarded), set(uint8), rng(uint8) (two successful paths storing the same term), step (advances only from s == 2), pay (reads msg.value), tick (reads block.timestamp), own (sender-specific), bad (assertion inside the target), dbl}; invariants s != c for c in {2,3,5,7,9,12}, s <= 1, t <= 1",
+    "targets: contracts with 1-3 functions out of {inc, dec (guarded), set(uint8), rng(uint8) (two successful paths storing the same term), setb(uint8) (two successful paths differing in one branch condition only), step (advances only from s == 2), pay (reads msg.value), tick (reads block.timestamp), own (sender-specific), bad (assertion inside the target), dbl}; invariants s != c for c in {2,3,5,7,9,12}, s <= 1, t <= 1, and (targets with tick) t <= block.timestamp",
     "reference BFS: arguments of set over {0,1,2,3,4,5,7,9,255,259}, senders over the admitted pool {0xaaa1, 0xaaa2, another}, msg.value in {0,1}, timestamp increments {0,1}; for this grammar every reachable (s,t) relevant to the invariants is reached, so verdicts are compared in both directions",
     "filters follow Foundry's documented resolution: targetContracts (else all created contracts) minus excludeContracts plus the keys of targetSelectors; targetSelectors win over excludeSelectors; targetSenders minus excludeSenders if non-empty, else everything but excludeSenders",
     "the top-level message of a target call does not move msg.value (known modelling decision of halmos, D14): targets only read msg.value, balances are not part of the invariants",
@@ -35,13 +35,13 @@ ASSUMPTIONS = [
 ]
 
 INVS = [[0, "s", "ne", 2], [0, "s", "ne", 3], [0, "s", "ne", 5], [0, "s", "ne", 7], [0, "s", "ne", 9], [0, "s", "ne", 12], [0, "s", "le", 1], [0, "t", "le", 1]]
-FN = ["inc", "dec", "set", "step", "pay", "tick", "own", "bad", "dbl", "rng"]
+FN = ["inc", "dec", "set", "step", "pay", "tick", "own", "bad", "dbl", "rng", "setb"]
 
 
 def projects(tier):
     out = []
     # single target, every function subset of size 1..2, selected triples
-    subsets = [[f] for f in FN] + [list(c) for c in itertools.combinations(FN, 2)]
+    subsets = [[f] for f in FN] + [list(c) for c in itertools.combinations(FN, 2) if tier == "thorough" or "setb" not in c or c[0] in ("inc", "step")]
     triples = [["inc", "step", "set"], ["inc", "dec", "dbl"], ["set", "step", "own"], ["inc", "own", "pay"], ["inc", "tick", "bad"], ["dbl", "inc", "step"], ["set", "bad", "dec"]]
     if tier == "thorough":
         triples = [list(c) for c in itertools.combinations(FN, 3)]
@@ -50,7 +50,8 @@ def projects(tier):
         for d in depths:
             if tier == "quick" and len(fns) == 2 and d in (0, 1) and "step" not in fns:
                 continue
-            out.append({"desc": {"targets": [fns], "invariants": INVS, "filters": None}, "depth": d})
+            invs = INVS + [[0, "t", "lenow", 0]] if "tick" in fns else INVS  # t = timestamp of the last tick(): never in the future
+            out.append({"desc": {"targets": [fns], "invariants": invs, "filters": None}, "depth": d})
     # an assertion inside a target, no invariant of the test contract is ever broken
     for fns, d in ((["set", "bad"], 2), (["inc", "bad"], 3), (["inc", "bad"], 2), (["set", "bad", "dec"], 2)):
         out.append({"desc": {"targets": [fns], "invariants": [[0, "s", "le", 255], [0, "t", "le", 5]], "filters": None}, "depth": d})
